@@ -40,7 +40,9 @@ pub enum ExecErr {
 pub fn classify(e: &DataFusionError) -> ExecErr {
     let text = e.to_string();
     let root = e.find_root();
-    if matches!(root, DataFusionError::ResourcesExhausted(_)) || text.contains("Resources exhausted") {
+    // "… hash aggregate ran out of memory with no aggregated groups" is raised as an Internal error by
+    // the aggregate streams when even an empty table cannot be reserved; it is a memory exhaustion
+    if matches!(root, DataFusionError::ResourcesExhausted(_)) || text.contains("Resources exhausted") || text.contains("ran out of memory") {
         return ExecErr::ResourcesExhausted(text);
     }
     if matches!(root, DataFusionError::NotImplemented(_)) || text.contains("This feature is not implemented") {
